@@ -91,38 +91,81 @@ example : (run "ttl" ctx0 [[97]] db0).reply = .int 4 ∧ (run "pttl" ctx0 [[97]]
 
 /-! ## 2. EXPIRE / PEXPIRE / EXPIREAT / PEXPIREAT / PERSIST -/
 
-/-- EXPIRE k n (n any 64-bit integer): on a missing key reply 0 and nothing changes; on a live key reply 1 and
+/-- The refusal conditions (`FR/Proofs/Ttl.lean`), spelled out.  The deadline of EXPIRE / PEXPIRE / EXPIREAT is a
+signed 64-bit number of milliseconds in Redis: with `ms` the argument in milliseconds and `basetime_ms` =
+`int(self._db.time * 1000)` = `now / TICKS_MS` (0 for EXPIREAT) the command is refused iff
+`ms + basetime_ms ≥ 2^63 ∨ ms < -2^63`. -/
+theorem overflow_conditions (now n : Int) :
+    (expireOverflow now n ↔ (n * 1000 + now / TICKS_MS ≥ 2 ^ 63 ∨ n * 1000 < -(2 ^ 63))) ∧
+    (pexpireOverflow now n ↔ (n + now / TICKS_MS ≥ 2 ^ 63 ∨ n < -(2 ^ 63))) ∧
+    (expireatOverflow n ↔ (n * 1000 ≥ 2 ^ 63 ∨ n * 1000 < -(2 ^ 63))) := ⟨Iff.rfl, Iff.rfl, Iff.rfl⟩
+
+/-- EXPIRE k n with a deadline outside the signed 64-bit millisecond range (`expireOverflow now n`): refused with
+`ERR invalid expire time in expire`, and nothing changes — whether or not the key exists. -/
+theorem expire_overflow_refused (ctx : Ctx) (k sb : Bytes) (n : Int) (hs : Conv.int sb = .ok n) (db : Db)
+    (nd : NodupKeys db.dict) (hctx : ctx.time = db.time) (hov : expireOverflow db.time n) :
+    let out := run "expire" ctx [k, sb] db
+    out.reply = .err (strBytes (Msgs.fmt1 Msgs.INVALID_EXPIRE_MSG "expire")) ∧ Db.purge out.db = Db.purge db :=
+  (expire_spec ctx k sb n hs nd hctx).1 hov
+
+/-- PEXPIRE k n out of range (`pexpireOverflow now n`): refused with `ERR invalid expire time in pexpire`. -/
+theorem pexpire_overflow_refused (ctx : Ctx) (k sb : Bytes) (n : Int) (hs : Conv.int sb = .ok n) (db : Db)
+    (nd : NodupKeys db.dict) (hctx : ctx.time = db.time) (hov : pexpireOverflow db.time n) :
+    let out := run "pexpire" ctx [k, sb] db
+    out.reply = .err (strBytes (Msgs.fmt1 Msgs.INVALID_EXPIRE_MSG "pexpire")) ∧ Db.purge out.db = Db.purge db :=
+  (pexpire_spec ctx k sb n hs nd hctx).1 hov
+
+/-- EXPIREAT k n out of range (`expireatOverflow n`, independent of the clock): refused with
+`ERR invalid expire time in expireat`. -/
+theorem expireat_overflow_refused (ctx : Ctx) (k sb : Bytes) (n : Int) (hs : Conv.int sb = .ok n) (db : Db)
+    (nd : NodupKeys db.dict) (hctx : ctx.time = db.time) (hov : expireatOverflow n) :
+    let out := run "expireat" ctx [k, sb] db
+    out.reply = .err (strBytes (Msgs.fmt1 Msgs.INVALID_EXPIRE_MSG "expireat")) ∧ Db.purge out.db = Db.purge db :=
+  (expireat_spec ctx k sb n hs nd hctx).1 hov
+
+/-- EXPIRE k n (n any 64-bit integer): refused with the invalid-expire error, nothing changed, when the deadline is
+out of range (`expireOverflow`); otherwise: on a missing key reply 0 and nothing changes; on a live key reply 1 and
 the deadline becomes exactly `now + n·TICKS` — unless that instant is not in the future, then the key is removed.
 No other key is touched. -/
 theorem expire_rule (ctx : Ctx) (k sb : Bytes) (n : Int) (hs : Conv.int sb = .ok n) (db : Db)
     (nd : NodupKeys db.dict) (hctx : ctx.time = db.time) :
     let out := run "expire" ctx [k, sb] db
-    (db.live k = none → out.reply = .int 0 ∧ Db.purge out.db = Db.purge db) ∧
-    (∀ it, db.live k = some it → it.value.isEmptyColl = false →
-      out.reply = .int 1 ∧
-      out.db.live k = (if db.time + n * TICKS ≤ db.time then none else some ⟨it.value, some (db.time + n * TICKS)⟩) ∧
-      ∀ k', k' ≠ k → out.db.live k' = db.live k') := expire_spec ctx k sb n hs nd hctx
+    (expireOverflow db.time n →
+      out.reply = .err (strBytes (Msgs.fmt1 Msgs.INVALID_EXPIRE_MSG "expire")) ∧ Db.purge out.db = Db.purge db) ∧
+    (¬ expireOverflow db.time n →
+      (db.live k = none → out.reply = .int 0 ∧ Db.purge out.db = Db.purge db) ∧
+      (∀ it, db.live k = some it → it.value.isEmptyColl = false →
+        out.reply = .int 1 ∧
+        out.db.live k =
+          (if db.time + n * TICKS ≤ db.time then none else some ⟨it.value, some (db.time + n * TICKS)⟩) ∧
+        ∀ k', k' ≠ k → out.db.live k' = db.live k')) := expire_spec ctx k sb n hs nd hctx
 
-/-- PEXPIRE: the instant is `now + n·TICKS_MS`. -/
+/-- PEXPIRE: the instant is `now + n·TICKS_MS`; refused when `pexpireOverflow`. -/
 theorem pexpire_rule (ctx : Ctx) (k sb : Bytes) (n : Int) (hs : Conv.int sb = .ok n) (db : Db)
     (nd : NodupKeys db.dict) (hctx : ctx.time = db.time) :
     let out := run "pexpire" ctx [k, sb] db
-    (db.live k = none → out.reply = .int 0 ∧ Db.purge out.db = Db.purge db) ∧
-    (∀ it, db.live k = some it → it.value.isEmptyColl = false →
-      out.reply = .int 1 ∧
-      out.db.live k =
-        (if db.time + n * TICKS_MS ≤ db.time then none else some ⟨it.value, some (db.time + n * TICKS_MS)⟩) ∧
-      ∀ k', k' ≠ k → out.db.live k' = db.live k') := pexpire_spec ctx k sb n hs nd hctx
+    (pexpireOverflow db.time n →
+      out.reply = .err (strBytes (Msgs.fmt1 Msgs.INVALID_EXPIRE_MSG "pexpire")) ∧ Db.purge out.db = Db.purge db) ∧
+    (¬ pexpireOverflow db.time n →
+      (db.live k = none → out.reply = .int 0 ∧ Db.purge out.db = Db.purge db) ∧
+      (∀ it, db.live k = some it → it.value.isEmptyColl = false →
+        out.reply = .int 1 ∧
+        out.db.live k =
+          (if db.time + n * TICKS_MS ≤ db.time then none else some ⟨it.value, some (db.time + n * TICKS_MS)⟩) ∧
+        ∀ k', k' ≠ k → out.db.live k' = db.live k')) := pexpire_spec ctx k sb n hs nd hctx
 
-/-- EXPIREAT: the instant is the absolute `n·TICKS`. -/
+/-- EXPIREAT: the instant is the absolute `n·TICKS`; refused when `expireatOverflow`. -/
 theorem expireat_rule (ctx : Ctx) (k sb : Bytes) (n : Int) (hs : Conv.int sb = .ok n) (db : Db)
     (nd : NodupKeys db.dict) (hctx : ctx.time = db.time) :
     let out := run "expireat" ctx [k, sb] db
-    (db.live k = none → out.reply = .int 0 ∧ Db.purge out.db = Db.purge db) ∧
-    (∀ it, db.live k = some it → it.value.isEmptyColl = false →
-      out.reply = .int 1 ∧
-      out.db.live k = (if n * TICKS ≤ db.time then none else some ⟨it.value, some (n * TICKS)⟩) ∧
-      ∀ k', k' ≠ k → out.db.live k' = db.live k') := expireat_spec ctx k sb n hs nd hctx
+    (expireatOverflow n →
+      out.reply = .err (strBytes (Msgs.fmt1 Msgs.INVALID_EXPIRE_MSG "expireat")) ∧ Db.purge out.db = Db.purge db) ∧
+    (¬ expireatOverflow n →
+      (db.live k = none → out.reply = .int 0 ∧ Db.purge out.db = Db.purge db) ∧
+      (∀ it, db.live k = some it → it.value.isEmptyColl = false →
+        out.reply = .int 1 ∧
+        out.db.live k = (if n * TICKS ≤ db.time then none else some ⟨it.value, some (n * TICKS)⟩) ∧
+        ∀ k', k' ≠ k → out.db.live k' = db.live k')) := expireat_spec ctx k sb n hs nd hctx
 
 /-- PEXPIREAT: the instant is the absolute `n·TICKS_MS`. -/
 theorem pexpireat_rule (ctx : Ctx) (k sb : Bytes) (n : Int) (hs : Conv.int sb = .ok n) (db : Db)
@@ -153,6 +196,44 @@ example : Conv.int [53] = .ok 5 ∧ Conv.int [45, 49] = .ok (-1) ∧ db0.live [9
     (run "persist" ctx0 [[97]] db0).db.live [97] = some ⟨.str [1], none⟩ ∧
     (run "persist" ctx0 [[98]] db0).reply = .int 0 :=
   ⟨rfl, rfl, rfl, rfl, rfl, rfl, rfl, rfl, rfl, rfl, rfl⟩
+
+/-- `9223372036854775807` = 2^63 - 1 and `-9223372036854775808` = -2^63 as argument bytes -/
+def maxB : Bytes := [57, 50, 50, 51, 51, 55, 50, 48, 51, 54, 56, 53, 52, 55, 55, 53, 56, 48, 55]
+def minB : Bytes := [45, 57, 50, 50, 51, 51, 55, 50, 48, 51, 54, 56, 53, 52, 55, 55, 53, 56, 48, 56]
+/-- `9223372036854775` = (2^63 - 1) / 1000 (rounded down) -/
+def maxSecB : Bytes := [57, 50, 50, 51, 51, 55, 50, 48, 51, 54, 56, 53, 52, 55, 55, 53]
+
+/-- non-vacuity of the refusals (clock 1 s): `EXPIRE k 9223372036854775807`, `EXPIRE k -9223372036854775808`,
+`PEXPIRE k 9223372036854775807`, `EXPIREAT k 9223372036854775807` are refused on the live key `b` and on the missing key
+`c` alike, and `b` is untouched; `EXPIRE b 9223372036854775` (deadline 2^63 - 808 + 1000 ms ≥ 2^63) is refused too
+while `EXPIREAT b 9223372036854775` is accepted; `PEXPIRE k -9223372036854775808` is in range: accepted, removes the
+key. -/
+example : Conv.int maxB = .ok 9223372036854775807 ∧ Conv.int minB = .ok (-9223372036854775808) ∧
+    Conv.int maxSecB = .ok 9223372036854775 ∧
+    expireOverflow db0.time 9223372036854775807 ∧ expireOverflow db0.time (-9223372036854775808) ∧
+    expireOverflow db0.time 9223372036854775 ∧
+    pexpireOverflow db0.time 9223372036854775807 ∧ ¬ pexpireOverflow db0.time (-9223372036854775808) ∧
+    expireatOverflow 9223372036854775807 ∧ ¬ expireatOverflow 9223372036854775 ∧
+    (run "expire" ctx0 [[98], maxB] db0).reply = .err (strBytes (Msgs.fmt1 Msgs.INVALID_EXPIRE_MSG "expire")) ∧
+    (run "expire" ctx0 [[98], maxB] db0).db.live [98] = some ⟨.str [2], none⟩ ∧
+    (run "expire" ctx0 [[99], maxB] db0).reply = .err (strBytes (Msgs.fmt1 Msgs.INVALID_EXPIRE_MSG "expire")) ∧
+    (run "expire" ctx0 [[98], minB] db0).reply = .err (strBytes (Msgs.fmt1 Msgs.INVALID_EXPIRE_MSG "expire")) ∧
+    (run "expire" ctx0 [[98], maxSecB] db0).reply = .err (strBytes (Msgs.fmt1 Msgs.INVALID_EXPIRE_MSG "expire")) ∧
+    (run "pexpire" ctx0 [[98], maxB] db0).reply = .err (strBytes (Msgs.fmt1 Msgs.INVALID_EXPIRE_MSG "pexpire")) ∧
+    (run "pexpire" ctx0 [[99], maxB] db0).reply = .err (strBytes (Msgs.fmt1 Msgs.INVALID_EXPIRE_MSG "pexpire")) ∧
+    (run "pexpire" ctx0 [[98], minB] db0).reply = .int 1 ∧
+    (run "pexpire" ctx0 [[98], minB] db0).db.live [98] = none ∧
+    (run "expireat" ctx0 [[98], maxB] db0).reply = .err (strBytes (Msgs.fmt1 Msgs.INVALID_EXPIRE_MSG "expireat")) ∧
+    (run "expireat" ctx0 [[99], maxB] db0).reply = .err (strBytes (Msgs.fmt1 Msgs.INVALID_EXPIRE_MSG "expireat")) ∧
+    (run "expireat" ctx0 [[98], maxSecB] db0).reply = .int 1 ∧
+    (run "expireat" ctx0 [[98], maxSecB] db0).db.live [98] = some ⟨.str [2], some 92233720368547750000000⟩ ∧
+    (run "pexpireat" ctx0 [[98], maxB] db0).reply = .int 1 :=
+  ⟨rfl, rfl, rfl,
+   by decide, by decide, by decide, by decide, by decide, by decide, by decide,
+   (expire_overflow_refused ctx0 [98] maxB 9223372036854775807 rfl db0 db0_nd rfl (by decide)).1,
+   rfl, rfl, rfl, rfl,
+   (pexpire_overflow_refused ctx0 [98] maxB 9223372036854775807 rfl db0 db0_nd rfl (by decide)).1, rfl, rfl, rfl,
+   (expireat_overflow_refused ctx0 [98] maxB 9223372036854775807 rfl db0 db0_nd rfl (by decide)).1, rfl, rfl, rfl, rfl⟩
 
 /-! ## 3. SETEX / PSETEX / SET EX|PX -/
 
